@@ -239,12 +239,18 @@ class AgentStateRepresentation(ArrayStateRepresentation):
     def convert(self, state: State) -> np.ndarray:
         agent_array = np.zeros(6)
 
-        # normalized between -1 and 1
-        y = (2 * state.agent.position.y - state.grid.shape.height + 1) / (
-            state.grid.shape.height - 1
+        # normalized between -1 and 1 (the only coordinate along a dimension
+        # of size 1 is the center)
+        height, width = state.grid.shape.height, state.grid.shape.width
+        y = (
+            (2 * state.agent.position.y - height + 1) / (height - 1)
+            if height > 1
+            else 0.0
         )
-        x = (2 * state.agent.position.x - state.grid.shape.width + 1) / (
-            state.grid.shape.width - 1
+        x = (
+            (2 * state.agent.position.x - width + 1) / (width - 1)
+            if width > 1
+            else 0.0
         )
         i = state.agent.orientation.value
 
